@@ -6,14 +6,38 @@ from ..engine import pyflow
 from ..engine.pyindex import walk_no_nested
 
 ID = 'C44'
-TECHNIQUE = 'abstract interpretation (interval x known-bits-with-provenance) of the line-table encoder against the frozen CPython location-table format; path-sensitive base-line rule'
+TECHNIQUE = ('abstract interpretation (interval x known-bits-with-provenance) of the line-table encoder against the frozen CPython location-table format; path-sensitive base-line rule; '
+             'writer/reader agreement of the emitted save/restore assignments of the error-position variables + path-sensitive call-site pairing of the saving and restoring helpers')
 DECIDES = ('for LineTable.py under the input assumptions (columns >= 0, start >= last, end >= start): '
            'BASE: the line number handed on as the base of the next entry equals the START line of the entry just written on every path '
            "(CPython's decoder adds line deltas to start lines); "
            'NUM: every first byte of an entry has bit 7 set and a code field in the range of its form, every other byte is < 128, var-int chunks carry the continuation bit on all but the last chunk, '
-           'and the bit layout of each form (short / one-line / long) is the one CPython decodes (sa/reference.py LOCATION_TABLE).')
-NOT_DECIDED = 'which positions the compiler records (mark_pos), and traceback construction in Exceptions.c.'
+           'and the bit layout of each form (short / one-line / long) is the one CPython decodes (sa/reference.py LOCATION_TABLE).  '
+           'POSPAIR: for the variables that put_add_traceback hands to __Pyx_AddTraceback (line, C line, file name): in every class that parks them in other storage '
+           '(TryFinallyStatNode.put_error_catcher/put_error_uncatcher, ParallelStatNode.fetch/restore_parallel_exception) the emitted save assignments and restore assignments are '
+           'mirror images (same variable <-> same slot, line and file name included); in every method calling the saving helper the restoring helper (directly or through one '
+           'wrapper method) receives the same local storage for each slot parameter - not a conditional, not None - and no jump to an error label happens between save and restore.')
+NOT_DECIDED = ('which positions the compiler records (mark_pos), and traceback construction in Exceptions.c; whether the guards inside the saving and the restoring helper agree '
+               '(only the call-site arguments and the emitted assignments are compared); position handling of generators/coroutines across yields.')
 ASSUMPTIONS = ['positions are start-sorted, columns are non-negative, end line >= start line (the documented input contract of build_line_table)']
+
+
+# Single-edit variants for C44-POSPAIR, run on a scratch copy (file, edit, expected construct); the last five are behaviour-preserving and stayed silent.
+MUTATIONS = [
+    ('Cython/Compiler/Nodes.py', 'seed C44b: put_error_uncatcher(..., exc_lineno_cnames if code.label_used(code.error_label) else None, ...)', 'C44-POSPAIR ...generate_execution_code:restore-arg:lineno_cname'),
+    ('Cython/Compiler/Nodes.py', 'put_error_uncatcher: lineno <- exc_lineno_cnames[1], clineno <- exc_lineno_cnames[0]', 'C44-POSPAIR Nodes.TryFinallyStatNode:pos:lineno_cname:slot-mismatch'),
+    ('Cython/Compiler/Nodes.py', 'put_error_uncatcher: file name no longer restored', 'C44-POSPAIR ...:pos:filename_cname:not-restored'),
+    ('Cython/Compiler/Nodes.py', 'generate_execution_code: None passed for the line temps of put_error_uncatcher', 'C44-POSPAIR ...:restore-arg:lineno_cname'),
+    ('Cython/Compiler/Nodes.py', 'generate_execution_code: put_goto(old_error_label) moved before put_error_uncatcher', 'C44-POSPAIR ...:error-exit-without-restore'),
+    ('Cython/Compiler/Nodes.py', 'generate_execution_code: put_error_uncatcher only `if self.in_generator`', 'C44-POSPAIR ...:error-exit-without-restore'),
+    ('Cython/Compiler/Nodes.py', 'ParallelStatNode.restore_parallel_exception: chain(*zip(self.parallel_pos_info, self.pos_info)) (copies in the save direction)', 'C44-POSPAIR Nodes.ParallelStatNode:pos:*:not-restored'),
+    ('Cython/Compiler/Nodes.py', 'put_error_catcher: lineno saved into both line temps (clineno not saved)', 'C44-POSPAIR ...:pos:clineno_cname:not-saved'),
+    ('Cython/Compiler/Nodes.py', 'restore extracted into a wrapper method that passes None for the line temps', 'C44-POSPAIR ...:restore-arg:lineno_cname'),
+    ('Cython/Compiler/Nodes.py', 'put_error_uncatcher: parameters renamed, %-format -> two f-string putln calls in another order', None),
+    ('Cython/Compiler/Nodes.py', 'call with keyword arguments through a local alias `pos_temps = exc_lineno_cnames`', None),
+    ('Cython/Compiler/Nodes.py', '`if needs_success_cleanup:` -> `if not needs_success_cleanup: pass / else:`, temps released after the goto', None),
+    ('Cython/Compiler/Nodes.py', 'uncatcher call + temp release + trace call extracted into a helper method (arguments handed through)', None),
+]
 
 
 def find_encoder(ctx):
@@ -88,4 +112,6 @@ def run(ctx):
     rules = [rule_base(ctx)]
     from ..rules import num
     rules += num.linetable_rules(ctx)
+    from ..rules import sC44
+    rules.append(sC44.rule_pospair(ctx))
     return rules
